@@ -55,7 +55,7 @@ T = {
          "Theorems (Props/C13.v): the fill loop over any legal delivery schedule returns the same bytes as a one-shot reader (C13_schedule_indep, C13_reader_agrees ties it to the reader model the decoders use); a stream that ends or fails before k bytes makes the read fail; at decoder level a stream shorter than the declared scope never yields a value (C13_short_stream_decode); Skip consumes like a read; a failing writer (lazy or eager error reporting) accepts exactly a prefix and Written equals it. Partial: schedule independence of whole decoders is by the decoders reading only through the primitive proved schedule-independent (not restated over decoders). Correspondence: primitive read sequences over random schedules; every delivery schedule and every failure position for sampled values (view and flat).",
          "machine-checked proof (Coq) of the I/O primitives + fault/schedule enumeration against the implementation"),
  "C14": ("forks of a hashed tree can be used concurrently",
-         "Theorems (Props/C14.v): a fully memoised heap prefix is bit-identical after any step or hash request of any fork (frozen prefix); outputs of a fork depend only on cells reachable from its handles. Partial: the Go memory model is not modelled; data races are searched by go test -race on 2..16 goroutines, not proved absent. Correspondence: per-goroutine observations vs the sequential model replay.",
+         "Theorems (Props/C14.v): a fully memoised heap prefix is bit-identical after any step or hash request of any fork (frozen prefix); hash requests commute with steps; fork independence: in EVERY interleaving of the events (all seven operations and hash requests) of any number of forks with disjoint, hook-closed handle sets, each fork observes exactly the outputs and roots of its own sequential run (C14_fork_outputs_independent on the tree machine, C14_interleaving_equals_sequential on the heap machine with its shared memo writes). Partial: the Go memory model is not modelled; data races are searched by go test -race on 2..16 goroutines, not proved absent. Correspondence: per-goroutine observations vs the sequential model replay.",
          "machine-checked proof (Coq) of the sequential-equivalence argument + race detector runs"),
  "C15": ("size bounds and fixed-size flags are sound",
          "Theorems (Props/C15.v): fixed flag = spec for every type; min/max/size = spec under max < 2^64 (wrap-free); every typed value's encoding length lies within the bounds; both bounds are attained. Correspondence: the four accessors on ~3000 types vs model vs spec.",
